@@ -68,7 +68,9 @@ def run(chk):
     if 'InterruptLeadsToTermination' not in rh.violated:
         raise core.MachineryError('self-test: with only the write half shut down a thread blocked in a read must never terminate in the model')
     rc = chk.tlc('MC_ConnLifecycle', 'ConnLifecycle_cross.cfg', must_pass=False)
-    chk.extra['observation_NoCrossTeardown_violated_in_model'] = 'NoCrossTeardown' in rc.violated or bool(rc.violated)
+    if 'NoCrossTeardown' not in rc.violated:
+        raise core.MachineryError('self-test: the model of the error handling as it was (check outside the lock) should violate NoCrossTeardown')
+    chk.extra['check_outside_the_lock_model_violates_NoCrossTeardown'] = True
 
     # ---- 2. S->I: single-thread histories
     r = chk.tlc('MC_ConnLifecycle', 'ConnLifecycle_emit.cfg')
